@@ -170,6 +170,63 @@ def run(ctx):
                     ctx.violation(f"{label}: image file changed under read_only=True", "ro-bytes-changed", dict(volume=meta, via="read_only=True"))
             finally:
                 os.remove(path)
+        # read-only mounts of a REAL FILE (a device with a file descriptor), the volume at offset 0 and at the classic 63 sectors, requested both ways
+        # (read_only=True by name; a file object opened 'rb'): every file reads back byte for byte (C10-m10: positional reads through the
+        # descriptor for read-only mounts bypassed the seek that adds the offset — BytesIO devices never took that path)
+        for label, thunk in [v for v in vols if v[0] in ("mkfs12-64k", "mkfs16-8500", "build32-tiny")]:
+            base, meta = populated(label, thunk, random.Random(11))
+            want_tree, _ = history.remount_walk(base, 0, "ibm437", True, read_only=False)
+            for off in (0, 63 * 512):
+                path = os.path.join(core.SCRATCH, f"rofd.{os.getpid()}.img")
+                whole = b"\xEE" * off + base + b"\xEE" * 4096
+                with open(path, "wb") as f:
+                    f.write(whole)
+                try:
+                    for via in ("read_only=True", "file object opened rb"):
+                        ctx.evaluations += 1
+                        fobj = None
+                        with warnings.catch_warnings():
+                            warnings.simplefilter("ignore")
+                            try:
+                                if via == "read_only=True":
+                                    f = PyFatFS(path, offset=off, read_only=True, encoding="ibm437")
+                                else:
+                                    from pyfatfs.PyFatFS import PyFatBytesIOFS
+                                    fobj = open(path, "rb")
+                                    f = PyFatBytesIOFS(fobj, offset=off, encoding="ibm437")
+                            except Exception as e:  # noqa
+                                ctx.violation(f"{label}@{off} ({via}): a read-only mount of an image file fails: {type(e).__name__}: {e}", "ro-file-mount-failed",
+                                              dict(volume=meta, via=via, offset=off))
+                                continue
+                            bad = None
+                            for p2, t in sorted(want_tree.items()):
+                                try:
+                                    if t[0] == "f":
+                                        got = bytes(f.readbytes(p2))
+                                        if got != t[2]:
+                                            d = next((j for j in range(min(len(got), len(t[2]))) if got[j] != t[2][j]), min(len(got), len(t[2])))
+                                            bad = f"{p2!r} reads back differently (length {len(got)} / {len(t[2])}, first difference at byte {d})"
+                                    elif not f.isdir(p2):
+                                        bad = f"directory {p2!r} is not there"
+                                except Exception as e:  # noqa
+                                    bad = f"{p2!r}: {type(e).__name__}: {e}"
+                                if bad:
+                                    break
+                            try:
+                                f.close()
+                            except Exception:  # noqa
+                                pass
+                            if fobj is not None:
+                                fobj.close()
+                        if bad:
+                            ctx.violation(f"{label}@{off} ({via}): read-only mount of an image file: {bad}", "ro-file-read:" + ("offset" if off else "0"),
+                                          dict(volume=meta, via=via, offset=off, what=bad))
+                        elif off:
+                            ctx.nontrivial.add((label, "ro-file", via))
+                        if open(path, "rb").read() != whole:
+                            ctx.violation(f"{label}@{off} ({via}): the image file changed under a read-only mount", "ro-bytes-changed", dict(volume=meta, via=via, offset=off))
+                finally:
+                    os.remove(path)
         # opener parameter conversion
         conv = PyFatFSOpener._PyFatFSOpener__convert_bool
         for s, want in [("true", True), ("1", True), ("t", True), ("y", True), ("TRUE", True), ("false", False), ("0", False), ("f", False), ("n", False), ("False", False)]:
